@@ -8,7 +8,7 @@ CANON = {"kind": "csr", "sym": False}
 REPRS = [{"kind": "list"}, {"kind": "tuple"}, {"kind": "dense"}, {"kind": "dense", "dtype": "float64"}, {"kind": "dense", "dtype": "bool"},
          {"kind": "csr"}, {"kind": "csc"}, {"kind": "lil"}, {"kind": "csr_array"}, {"kind": "dense", "lower": True},
          {"kind": "list", "sym": True}, {"kind": "dense", "sym": True}, {"kind": "csr", "sym": True}, {"kind": "csr", "lower": True},
-         {"kind": "csr", "mixed": True}, {"kind": "dense", "mixed": True}, {"kind": "list", "mixed": True}]
+         {"kind": "csr", "mixed": True}, {"kind": "dense", "mixed": True}, {"kind": "list", "mixed": True}, {"kind": "dense", "dtype": "float64", "sym": True}]
 # containers the C05 families draw from (the bracket must not depend on how the undirected edges are stored)
 C05_REPRS = [CANON, CANON, {"kind": "csr", "lower": True}, {"kind": "csr", "mixed": True}, {"kind": "dense", "mixed": True}, {"kind": "list", "sym": True}, {"kind": "csc", "mixed": True}]
 
